@@ -188,6 +188,25 @@ fn merged_pool() -> Vec<(String, TlS)> {
     specs.into_iter().map(|s| (s.render(&s.canonical_order()), s)).collect()
 }
 
+/// A sentence with `n` keyframes: `8s after 500ms 3x from {..} 1.25% {..} 2.5% {..} ... to {..}`.
+fn long_sentence(n: usize) -> TlS {
+    let b = bodies();
+    let mut t = make(Some(1), Some(1), Some(1), false, None, &[]);
+    for i in 0..n {
+        let (text, exact): (&'static str, f64) = if i == 0 {
+            ("from", 0.0)
+        } else if i == n - 1 {
+            ("to", 1.0)
+        } else {
+            let pct = i as f64 * 1.25;
+            (Box::leak(format!("{pct}%").into_boxed_str()), pct / 100.0)
+        };
+        let bi = if i % 2 == 0 { 0 } else { 2 };
+        t.kfs.push(KfS { pos: Num { text, exact }, body: b[bi].1.clone(), body_text: b[bi].0 });
+    }
+    t
+}
+
 fn layer_a(thorough: bool) -> (Acc, Vec<(String, String)>) {
     // returns the accumulated result and the Layer B selection: (macro sentence, builder source)
     let orders = family_orders(if thorough { 8 } else { 4 });
@@ -233,6 +252,13 @@ fn layer_a(thorough: bool) -> (Acc, Vec<(String, String)>) {
         },
         merge,
     );
+    // F4: long sentences (31, 32, 33, 41, 64, 65 keyframes): `from`, then multiples of 1.25%, then `to`
+    let long: Vec<TlS> = [31usize, 32, 33, 41, 64, 65].iter().map(|&n| long_sentence(n)).collect();
+    let mut acc = acc;
+    for (i, sem) in long.iter().enumerate() {
+        let text = sem.render(&sem.canonical_order());
+        check_single(&text, sem, (3u64 << 40) | i as u64, &mut acc);
+    }
     // Layer B selection: every production and every ordered pair of argument kinds appears
     let mut sel: Vec<(String, String)> = vec![];
     let stride1 = if thorough { 4 } else { 40 };
@@ -240,6 +266,9 @@ fn layer_a(thorough: bool) -> (Acc, Vec<(String, String)>) {
         if i % stride1 == 0 {
             sel.push((format!("P {}", sem.render(arr)), sem.builder_source("P")));
         }
+    }
+    for sem in &long {
+        sel.push((format!("P {}", sem.render(&sem.canonical_order())), sem.builder_source("P")));
     }
     let fixed = [(0usize, 1usize), (1usize, 0usize)];
     for d in 0..=DURATIONS.len() {
@@ -428,7 +457,7 @@ pub fn run(run: Run) -> ! {
     cov.insert("programs_compiled".into(), json!(compiled + rejected));
     cov.insert("evaluations".into(), json!(a_sentences + evals));
     cov.insert("distinct_nontrivial".into(), json!(acc.distinct_programs.len()));
-    cov.insert("rule".into(), json!("Layer A (in-process, real macro sources included textually): F1 = every subset of {duration, delay, repeat, reverse, easing} x 0..3 keyframes x EVERY order of the arguments with keyframes interleaved, literal forms rotated; F2 = canonical order x ALL combinations of literal forms (13 durations incl. 1_500ms, 2e3ms, `for`, a 17-digit literal just past the midpoint of two f32 values (seconds literals must arrive as exactly the nearest f32), and the zero lengths 0s / 0.0ms (metadata only); 5 delays incl. the negative after -0.5s / after -250ms; 1x/3x/infinite/16_777_217x (not representable in f32)/4294967295x; reverse; 3 easing paths) x keyframe lists over 9 positions (from,to,0%,10%,25%,40%,100%,12.5%,33.3%) x 5 bodies (one with its fields not in alphabetical order: setters are called in the order written); F3 = all merged lists of 1..3 members from a 12-sentence pool; each expansion is parsed back into a builder program and compared with the documented reading (numbers within 1 ulp of the exact decimal, structure equal, keyframes and members in source order); 16 ill-formed sentences must be rejected. Layer B: a covering subset compiled with the real proc macro and run against builder twins (values on a time grid, delay/cycle within 1 ulp, duration within 2 ulp, repeat equal); ill-formed sentences compiled one per cargo invocation must fail. non-trivial = distinct expansions (hash of token stream, capped)"));
+    cov.insert("rule".into(), json!("Layer A (in-process, real macro sources included textually): F1 = every subset of {duration, delay, repeat, reverse, easing} x 0..3 keyframes x EVERY order of the arguments with keyframes interleaved, literal forms rotated; F2 = canonical order x ALL combinations of literal forms (13 durations incl. 1_500ms, 2e3ms, `for`, a 17-digit literal just past the midpoint of two f32 values (seconds literals must arrive as exactly the nearest f32), and the zero lengths 0s / 0.0ms (metadata only); 5 delays incl. the negative after -0.5s / after -250ms; 1x/3x/infinite/16_777_217x (not representable in f32)/4294967295x; reverse; 3 easing paths) x keyframe lists over 9 positions (from,to,0%,10%,25%,40%,100%,12.5%,33.3%) x 5 bodies (one with its fields not in alphabetical order: setters are called in the order written); F3 = all merged lists of 1..3 members from a 12-sentence pool; F4 = long sentences of 31, 32, 33, 41, 64 and 65 keyframes; each expansion is parsed back into a builder program and compared with the documented reading (numbers within 1 ulp of the exact decimal, structure equal, keyframes and members in source order); 16 ill-formed sentences must be rejected. Layer B: a covering subset compiled with the real proc macro and run against builder twins (values on a time grid, delay/cycle within 1 ulp, duration within 2 ulp, repeat equal); ill-formed sentences compiled one per cargo invocation must fail. non-trivial = distinct expansions (hash of token stream, capped)"));
     cov.insert("exhaustive".into(), json!(true));
     cov.insert("compiled_timeline_evaluations".into(), json!(evals));
     cov.insert("ill_formed_rejected_in_process".into(), json!(ill));
